@@ -39,6 +39,17 @@ def handle (j : Json) : Except String Json := do
     let spec := rs.zipIdx.map fun (r, i) => outToJson (expected skip metaRes ps r (offset skip metaRes rs i))
     let offsets := rs.zipIdx.map fun (_, i) => offset skip metaRes rs i
     pure (okJson [("model", model), ("spec", Json.arr spec.toArray), ("offsets", toJson offsets)])
+  | "consume2" =>
+    let skip ← (← (← j.getObjVal? "skip").getArr?).toList.mapM (·.getStr?)
+    let psC ← (← (← j.getObjVal? "ps").getArr?).toList.mapM v3OfJson
+    let psM ← (← (← j.getObjVal? "ps_meta").getArr?).toList.mapM v3OfJson
+    let rs ← (← (← j.getObjVal? "residues").getArr?).toList.mapM resOfJson
+    let model := match consumeBoth skip psC psM rs with
+      | some outs => Json.arr (outs.map outToJson).toArray
+      | none => Json.str "reject"
+    -- what the property demands of the atoms given with -c: the specification of the first call
+    let spec := rs.zipIdx.map fun (r, i) => outToJson (expected skip false psC r (offset skip false rs i))
+    pure (okJson [("model", model), ("spec", Json.arr spec.toArray)])
   | "gndx" =>
     let ms ← (← (← j.getObjVal? "mols").getArr?).toList.mapM C17.molOfJson
     let mols := ms.map (·.mol)
